@@ -276,7 +276,7 @@ ItemOK(it, t) ==
             /\ Imp("C07", x.cls # "dup" => ~it.dup)
        [] OTHER -> FALSE
 
-ReplyFor(u) ==   \* the Send event answers unit u
+ReplyGuard(u) ==   \* the Send event can be the answer to unit u
   LET T   == units[u].tags
       rep == SelectSeq(T, Reportable)
       its == Ev.items
@@ -287,6 +287,19 @@ ReplyFor(u) ==   \* the Send event answers unit u
       /\ Len(its) >= 1
       /\ Imp("C01", (Ev.shape = "array") <=> units[u].arr)
       /\ Len(its) = Len(rep) => \A i \in 1..Len(rep) : ItemOK(its[i], rep[i])
+\* ... and evidently is: every item carries the tag its handler returned, member by member.  When such a
+\* reading exists it is the one taken (a property that does not judge ids or payloads admits any other
+\* finished unit, or none, as the explanation as well: 2^n readings of n replies, all of them weaker).
+Natural(u) ==
+  LET rep == SelectSeq(units[u].tags, Reportable) IN
+  /\ Len(Ev.items) = Len(rep)
+  /\ \A i \in 1..Len(rep) : Ev.items[i].tag \in {"", rep[i]}
+  /\ \E i \in 1..Len(rep) : Ev.items[i].tag # ""
+HasNatural == \E u \in 1..Len(units) : ReplyGuard(u) /\ Natural(u)
+ReplyFor(u) ==   \* the Send event answers unit u
+  LET T == units[u].tags IN
+      /\ ReplyGuard(u)
+      /\ HasNatural => Natural(u)
       /\ units' = [units EXCEPT ![u].st = "sent"]
       \* the reply releases the reservations held by the unit's members
       /\ used' = [id \in {i \in DOMAIN used : used[i] \notin SeqSet(T)} |-> used[id]]
@@ -328,6 +341,7 @@ SendOK ==
      \/ PushNoteSend
      \/ PushCallSend
      \/ /\ ~("C01" \in Enforce \/ "C02" \in Enforce \/ "C09" \in Enforce \/ "C07" \in Enforce)
+        /\ ~HasNatural
         \* unexplained output is only judged by those - except that C06 judges the answer given to a call
         \* that never started (it must be the cancellation error): such a record has to be a unit's reply
         /\ Imp("C06", ~\E i \in 1..Len(Ev.items) : \E t \in DOMAIN mem :
